@@ -15,6 +15,9 @@ from array_api_compat import array_namespace
 from scipy import special
 
 
+PARAM_NAMES = ["zeta", "alpha", "mu_", "beta_", "kappa", "chi"]
+
+
 class Coord:
     def __init__(self, kind, lo, hi, mu, s):
         self.kind = kind  # "box" | "vonmises"
@@ -60,7 +63,8 @@ class Target:
         self.coords = list(coords)
         self.dims = len(self.coords)
         self.name = name
-        self.parameters = [f"p{i}" for i in range(self.dims)]
+        # names whose declared order is NOT lexicographic (HDF5 groups list members alphabetically)
+        self.parameters = [PARAM_NAMES[i] for i in range(self.dims)]
         self.prior_bounds = {p: [c.lo, c.hi] for p, c in zip(self.parameters, self.coords)}
         self.periodic_parameters = [p for p, c in zip(self.parameters, self.coords) if c.kind == "vonmises"]
         self.lo = np.array([c.lo for c in self.coords])
